@@ -7,15 +7,18 @@ From Coq Require Import Sorted.
    return values}, Recovery or an unresolvable handler anywhere, GET or HEAD, dev or prod:
    fuel n+2 suffices (the model never runs out of fuel, i.e. run() terminates) and the recorded trace
    of the whole request is accepted by the judge chain_spec_ok of Chain.v. *)
-Theorem C03_trace_accepted : forall hs action head dev,
-  match serve hs action head dev with
+Theorem C03_trace_accepted : forall hs action head dev apprh,
+  valid_cfg hs action = true ->
+  match serve hs action head dev apprh with
   | Done s | Panicked _ s => chain_spec_ok hs action (trace s) = true
   | OutOfFuel => False
   end.
 Proof. exact serve_accepted. Qed.
 
 (* What acceptance means, for any trace (the model's by the theorem above, the implementation's as
-   judged on every run of the check): *)
+   judged on every run of the check).  The trace records, per scripted handler, Enter (with the
+   response status and cancellation it sees) / Exit / Unwind (a panic leaves it) / NextCall / NextRet,
+   and Sent when the status line reaches the client (recorded by the wire, not by handlers). *)
 
 (* handlers start strictly in chain order, each at most once *)
 Theorem C03_order_at_most_once : forall hs action tr,
@@ -27,34 +30,51 @@ Theorem C03_no_skip : forall hs action tr i k,
   chain_spec_ok hs action tr = true -> In i (enters tr) -> k < i -> scripted hs action k = true -> In k (enters tr).
 Proof. exact accepted_no_skip. Qed.
 
-(* the chain advances on its own only if nothing has been written and the request is not cancelled;
-   any other start is the direct effect of a Next() call *)
-Theorem C03_auto_advance : forall hs action tr pre e i st c post,
-  chain_spec_ok hs action tr = true -> tr = pre ++ e :: Enter i st c :: post ->
-  match e with
-  | Exit _ | Unwind _ => st = 0%Z /\ c = false
-  | NextCall _ => c = false
+(* the chain advances on its own (a handler starts right after another finished, Sent events aside)
+   only if nothing has been written and the request is not cancelled; any other start is the direct
+   effect of a Next() call *)
+Theorem C03_auto_advance : forall hs action tr pre i st c post,
+  chain_spec_ok hs action tr = true -> tr = pre ++ Enter i st c :: post ->
+  match last_ctl pre None with
+  | Some (Exit _) | Some (Unwind _) => st = 0%Z /\ c = false
+  | Some (NextCall _) | None => c = false
   | _ => False
   end.
 Proof. exact accepted_auto_advance. Qed.
+
+(* "nothing has been written" is the truth: the status a handler sees is 0 iff no status line has
+   reached the client (return values are rendered - and Sent - before the advance test) *)
+Theorem C03_truthful_status : forall hs action tr pre i st c post,
+  chain_spec_ok hs action tr = true -> tr = pre ++ Enter i st c :: post ->
+  (st = 0%Z <-> existsb is_sent pre = false).
+Proof. exact accepted_truthful_status. Qed.
+
+(* a handler that calls Next() has the remainder of the chain run - as far as it gets - inside that
+   call: once any Next() has returned, a handler can only start if the response has been written
+   (so nothing that an unwritten, uncancelled chain still owes can start later); in particular
+   further Next() calls do nothing once the chain is exhausted *)
+Theorem C03_remainder_inside_next : forall hs action tr pre i st c post,
+  chain_spec_ok hs action tr = true -> tr = pre ++ Enter i st c :: post ->
+  existsb is_nextret pre = true -> st <> 0%Z.
+Proof. exact accepted_remainder_inside_next. Qed.
 
 Theorem C03_never_starts_cancelled : forall hs action tr i st c,
   chain_spec_ok hs action tr = true -> In (Enter i st c) tr -> c = false.
 Proof. exact accepted_never_cancelled. Qed.
 
+Theorem C03_one_status_line : forall hs action tr pre post,
+  chain_spec_ok hs action tr = true -> tr = pre ++ Sent :: post -> existsb is_sent post = false.
+Proof. exact accepted_one_status. Qed.
+
 (* onion nesting is the stack discipline of the judge itself (jstk): Exit/Unwind/NextCall/NextRet of
    handler i are accepted only while i is the innermost running handler, a handler starts only deeper
    than the running one, and acceptance requires the stack to be empty at the end. *)
 
-(* return values are rendered before the advance test: an empty rendering changes nothing *)
-Theorem C03_empty_return_continues : forall head r s, render r = [] -> w_ops head (render r) s = s.
-Proof. exact empty_return_continues. Qed.
-
 (* non-vacuity: the stack of finding F5 (h0 calls Next twice, h1 writes) *)
 Example C03_example :
-  serve [HNormal [ANext; ANext] []; HNormal [AWriteHeader 201] []; HNormal [] []; HNormal [] []] None false true
+  serve [HNormal [ANext; ANext] []; HNormal [AWriteHeader 201] []; HNormal [] []; HNormal [] []] None false true None
   = Done (mkst 3 201 [] false
-      [Enter 0 0 false; NextCall 0; Enter 1 0 false; Exit 1; NextRet 0; NextCall 0; Enter 2 201 false; Exit 2; NextRet 0; Exit 0]).
+      [Enter 0 0 false; NextCall 0; Enter 1 0 false; Sent; Exit 1; NextRet 0; NextCall 0; Enter 2 201 false; Exit 2; NextRet 0; Exit 0] None).
 Proof. vm_compute. reflexivity. Qed.
 
 Redirect "assum/C03.1" Print Assumptions C03_trace_accepted.
@@ -62,3 +82,5 @@ Redirect "assum/C03.2" Print Assumptions C03_order_at_most_once.
 Redirect "assum/C03.3" Print Assumptions C03_no_skip.
 Redirect "assum/C03.4" Print Assumptions C03_auto_advance.
 Redirect "assum/C03.5" Print Assumptions C03_never_starts_cancelled.
+Redirect "assum/C03.6" Print Assumptions C03_truthful_status.
+Redirect "assum/C03.7" Print Assumptions C03_remainder_inside_next.
